@@ -4,6 +4,7 @@
   `parse_int64_from_buffer` for every digit string, radix and sign, `ratio_gcd`).
 -/
 import Edn.Proofs.Number
+import Edn.Proofs.NumberReader
 
 namespace Edn.Properties.C04
 open Edn.Model Edn.Proofs
@@ -30,6 +31,45 @@ theorem int64_exact (cfg : Cfg) (radix : Nat) (hr : 2 ≤ radix ∧ radix ≤ 36
     including the most negative one -/
 theorem ratio_gcd_exact (a b : Int) (ha : a.natAbs ≤ 9223372036854775808) (hb : b.natAbs ≤ 9223372036854775808) :
     ratioGcd a b = Nat.gcd a.natAbs b.natAbs := ratioGcd_eq a b ha hb
+
+/-! ### reader level: `edn_read_number` on each class of token (decimal integers: C03) -/
+
+/-- big decimals keep their text: an integer or float token followed by `M` -/
+theorem reads_bigdec (cfg : Cfg) (sg body rest : Bytes) (neg : Bool) (hs : Edn.Spec.SignTok sg neg)
+    (hb : Edn.Spec.DecDigits body ∨ Edn.Spec.FloatTok body) (hnosign : ∀ c, body.head? = some c → c ≠ 0x2B ∧ c ≠ 0x2D)
+    (ht : Edn.Spec.TermStart rest) :
+    readNumber cfg (sg ++ body ++ [0x4D] ++ rest) = .ok (.bigdec neg body) rest :=
+  readNumber_bigdec cfg sg body rest neg hs hb hnosign ht
+
+/-- Clojure flag: hexadecimal - the value of the hex digits if it fits int64 (`int64_exact`),
+    else a big integer of radix 16 keeping the digits -/
+theorem reads_hex (cfg : Cfg) (hc : cfg.clj = true) (sg hs rest : Bytes) (x : UInt8) (neg : Bool) (hs' : Edn.Spec.SignTok sg neg)
+    (hx : x = 0x78 ∨ x = 0x58) (hne : hs ≠ []) (hh : Edn.Spec.AllHex hs) (ht : Edn.Spec.TermStart rest) :
+    readNumber cfg (sg ++ [0x30, x] ++ hs ++ rest) = .ok (intOrBig cfg hs 16 neg) rest :=
+  readNumber_hex cfg hc sg hs rest x neg hs' hx hne hh ht
+
+/-- Clojure flag: leading zero + octal digits -/
+theorem reads_octal (cfg : Cfg) (hc : cfg.clj = true) (sg zs os rest : Bytes) (neg : Bool) (hs : Edn.Spec.SignTok sg neg)
+    (hz : ∀ c ∈ zs, c = 0x30) (hne : os ≠ []) (ho : Edn.Spec.AllRadix 8 os) (hfirst : os.head? ≠ some 0x30) (ht : Edn.Spec.TermStart rest) :
+    readNumber cfg (sg ++ 0x30 :: zs ++ os ++ rest) = .ok (intOrBig cfg (0x30 :: zs ++ os) 8 neg) rest :=
+  readNumber_octal cfg hc sg zs os rest neg hs hz hne ho hfirst ht
+
+/-- Clojure flag: `NrDDD`, radix 2..36 -/
+theorem reads_radix (cfg : Cfg) (hc : cfg.clj = true) (sg rp ds rest : Bytes) (r : UInt8) (neg : Bool) (hs : Edn.Spec.SignTok sg neg)
+    (hrp : rp ≠ [] ∧ Edn.Spec.AllDigits rp) (hrv : 2 ≤ Edn.Spec.natOfDigits rp ∧ Edn.Spec.natOfDigits rp ≤ 36) (hr : r = 0x72 ∨ r = 0x52)
+    (hne : ds ≠ []) (hd : Edn.Spec.AllRadix (Edn.Spec.natOfDigits rp) ds) (ht : Edn.Spec.TermStart rest) :
+    readNumber cfg (sg ++ rp ++ [r] ++ ds ++ rest) = .ok (intOrBig cfg ds (Edn.Spec.natOfDigits rp) neg) rest :=
+  readNumber_radix cfg hc sg rp ds rest r neg hs hrp hrv hr hne hd ht
+
+/-- Clojure flag: ratios are reduced to lowest terms, become an integer when the denominator
+    divides the numerator, and a big ratio only when an operand does not fit 64 bits
+    (`Edn.Spec.ratioValue`).  `hzero`: a zero numerator reads as the integer 0 whatever the size
+    of the denominator, which `ratioValue` states only for denominators that fit. -/
+theorem reads_ratio (cfg : Cfg) (hc : cfg.clj = true) (sg nd dd rest : Bytes) (neg : Bool) (hs : Edn.Spec.SignTok sg neg)
+    (hn : Edn.Spec.DecDigits nd) (hd : dd ≠ [] ∧ Edn.Spec.AllDigits dd ∧ dd.head? ≠ some 0x30) (ht : Edn.Spec.TermStart rest)
+    (hzero : nd = [0x30] → Edn.Spec.natOfDigits dd ≤ 9223372036854775807) :
+    readNumber cfg (sg ++ nd ++ [0x2F] ++ dd ++ rest) = .ok (Edn.Spec.ratioValue cfg neg nd dd) rest :=
+  readNumber_ratio cfg hc sg nd dd rest neg hs hn hd ht hzero
 
 example : parseInt64 Cfg.core "9223372036854775807".toUTF8.toList 10 false = some 9223372036854775807 := by decide +kernel
 example : parseInt64 Cfg.core "9223372036854775808".toUTF8.toList 10 false = none := by decide +kernel
